@@ -13,6 +13,8 @@
   goroutine leaks, whole-program memory safety (runtime behaviour the models cannot exhibit).
 -/
 import Vgw.Lemmas.RobustHandlers
+import Vgw.Lemmas.GlobSteps
+import Vgw.Props.C12
 namespace Vgw.Props.C20
 open Vgw Vgw.Go Vgw.Model.Robust
 
@@ -314,6 +316,24 @@ theorem extractChunkSize_at_end (s : Bytes) (h : (10 : UInt8) ∉ s) : extractCh
   unfold extractChunkSizeOf
   rw [this]
 
+/-! ## corollaries over the models of other properties -/
+
+/-- the signed aws-chunked reader (Model.ChunkSigned, C12) never panics: arbitrary bytes — any chunk
+size token, 2^63 and above included — in arbitrary deliveries (Props.C12.signed_never_panics,
+restated here because a panic in the body reader ends the process); tied to
+utils.NewSignedChunkReader in-process on boundary chunk sizes and end to end in both signed modes -/
+theorem no_panic_signedChunkReader (cfg : Vgw.Model.ChunkSigned.Cfg) (seedSig : Bytes) (ds : List (Bytes × Bool)) :
+    (Vgw.Model.ChunkSigned.run cfg seedSig ds).2 ≠ .panic :=
+  Vgw.Props.C12.signed_never_panics cfg seedSig ds
+
+/-- the policy resource matcher (Model.Glob, C14: Resources.Match) runs its first loop at most
+|s|·(|s|+|p|+1) + |s| + |p| times, whatever the number of `*` in the pattern: an access check cannot
+be made to spin by a many-star resource and a long key. (`loopSteps` counts the iterations of
+`Model.Glob.loop` with the same tests; the second loop is bounded by |p|.) -/
+theorem glob_steps_bounded (p s : Bytes) :
+    Vgw.Model.Glob.loopSteps p s 0 0 none 0 (Nat.le_refl 0) ≤ s.length * (s.length + p.length + 1) + s.length + p.length :=
+  Vgw.Model.Glob.loopSteps_le p s
+
 /-! ## the property over all modelled sites -/
 
 /-- every modelled defect site, in variant `fixed`, returns normally on every input -/
@@ -380,6 +400,8 @@ example : actionIsValid (fun _ => true) (fun _ => true) [115, 51, 58, 71] = .ok 
 example : walkRoot [97, 47, 98, 47, 99] = .ok (some [97, 47, 98]) := by decide
 example : escapeRequired (fun c => c = 32) [97, 32, 98] = 5 := by decide
 example : extractChunkSizeOf [53, 13, 10, 104] = some (5, [104]) := by decide     -- "5\r\nh"
+-- "*a*b" on "aaa": at most 3·(3+4+1)+3+4 = 31 iterations
+example : Vgw.Model.Glob.loopSteps [42, 97, 42, 98] [97, 97, 97] 0 0 none 0 (Nat.le_refl 0) ≤ 31 := glob_steps_bounded [42, 97, 42, 98] [97, 97, 97]
 example : extractChunkSizeOf [] = none := by decide                                -- clean end of the stream
 example : extractChunkSizeOf [13, 10, 53, 13, 10] = none := by decide              -- an empty line is malformed, not skipped
 example : stashAlloc 10 20 = some 30 := by decide
